@@ -7,6 +7,7 @@ import warnings
 from fractions import Fraction as F
 import numpy as np
 import common
+from props import mmulti
 from common import xr, xvec, from_xr, from_xvec, num_close
 
 ID = "C08"
@@ -1280,3 +1281,8 @@ def nontrivial(op, out):
         a = op.split(" ")
         return any(t in (a[1], a[2]) for t in a[3].split(","))
     return _nontrivial_c08(op, out)
+
+
+# stream family metric.multi (props/mmulti.py): the probabilistic scores through the real compute / compute_single on
+# datasets with several inputs, for every input index, axis and slice index; ops with the prefix `mm ` are delegated
+mmulti.install(globals(), "prob")
